@@ -457,4 +457,17 @@ Proof.
     pose proof (Forall_inv I1) as E. unfold orth in E. rewrite E. ring.
 Qed.
 
+Lemma cg_dir_rp s0 i s R P p :
+  cg_state_inv n mulA s0 i s R P -> cg_dir i s = Ok p -> dot_raw (cg_r s) p = dot_raw (cg_r s) (cg_r s).
+Proof.
+  intros ((Hx & Hr & Hp & Hz) & _ & _ & HI) Hdir. unfold cg_dir in Hdir.
+  destruct HI as [(-> & -> & _)|(Hi & HI)].
+  - cbn in Hdir. now injection Hdir as <-.
+  - replace (i =? 1) with false in Hdir by (symmetry; apply Nat.eqb_neq; lia).
+    apply bind_ok in Hdir as (beta & _ & Hdir). injection Hdir as <-.
+    rewrite (dot_raw_add_r FL) by (rewrite vscale_length; lia). rewrite (dot_raw_scale_r FL).
+    destruct HI as (_ & _ & _ & _ & (R' & P' & _ & -> & _) & I1 & _).
+    pose proof (Forall_inv I1) as E. unfold orth in E. rewrite E. ring.
+Qed.
+
 End CGEnergy.
